@@ -347,6 +347,7 @@ pub fn run_property(prop: &str, tier: &str) -> Option<Outcome> {
         }
         "C10" => {
             crate::props3::c10(tier, &mut acc, &mut bounds);
+            crate::scale::validity(prop, tier, &mut acc, &mut bounds);
             ("exploration", "every pattern collection of the listed bounds x configuration; non-trivial = the collection is invalid (empty collection, empty pattern or repeat) or sits on an index-conversion boundary".into(), vec![])
         }
         "C12" => {
